@@ -224,6 +224,12 @@ class MemInterp(TriInterp):
                 return [(p, V("const", len(a.val)))]
         if fname in ("bytes",) and len(args) == 1 and args[0].kind == "raw":
             return [(p, args[0])]
+        if fname == "float" and len(args) == 1 and args[0].kind == "const" \
+                and isinstance(args[0].val, (str, int, float)):
+            try:
+                return [(p, V("const", float(args[0].val)))]
+            except ValueError:
+                pass
         if fname in ("pow", "Decimal", "float", "round", "abs", "min",
                      "max"):
             return [(p, V("oint", None))]
